@@ -1,10 +1,394 @@
 package zsim
 
-import "time"
+import (
+	"container/heap"
+	"fmt"
+	"reflect"
+	"runtime"
+	"sort"
+	"time"
+)
 
-// placeholder – replaced by the real scheduler (see sched.go history)
-type sched struct {
-	now time.Duration
+// The cooperative scheduler. Tasks are real goroutines, but exactly one is runnable at any
+// instant: each parks on its private gate; the driver loop (Run) picks the next task from
+// the sorted runnable set with a tape draw, opens its gate and waits until the task hands
+// control back (at a Yield, a blocking shim call, a channel operation, or its exit). Go's
+// own scheduler therefore decides nothing and results do not depend on GOMAXPROCS.
+
+type taskState int
+
+const (
+	tsRunnable taskState = iota
+	tsBlocked
+	tsDone
+	tsFrozen // its process exited or was killed: parked for ever, never unwound during the run
+)
+
+type Task struct {
+	ID    int
+	Name  string
+	Proc  *Proc
+	gate  chan struct{}
+	state taskState
+	ready func() bool
+	dying bool
+	site  string
+	// rendezvous slots
+	recvVal reflect.Value
+	recvOK  bool
+	gotVal  bool
+	sent    bool
+	Panic   interface{}
+	PanicStack string
 }
 
-func (s *sched) teardown() {}
+type timer struct {
+	at  time.Duration
+	seq uint64
+	fn  func()
+	dead bool
+}
+
+type timerHeap []*timer
+
+func (h timerHeap) Len() int { return len(h) }
+func (h timerHeap) Less(i, j int) bool {
+	if h[i].at != h[j].at {
+		return h[i].at < h[j].at
+	}
+	return h[i].seq < h[j].seq
+}
+func (h timerHeap) Swap(i, j int)       { h[i], h[j] = h[j], h[i] }
+func (h *timerHeap) Push(x interface{}) { *h = append(*h, x.(*timer)) }
+func (h *timerHeap) Pop() interface{} {
+	old := *h
+	n := len(old)
+	x := old[n-1]
+	*h = old[:n-1]
+	return x
+}
+
+type sched struct {
+	w      *World
+	tasks  []*Task
+	cur    *Task
+	back   chan struct{}
+	now    time.Duration
+	timers timerHeap
+	tseq   uint64
+	Steps  int
+	Switches int
+	chans  map[uintptr]*chanState
+	ilHash uint64 // running hash of the context-switch sequence (interleaving identity)
+	KeepBias int  // out of 8: probability weight of keeping the current task when it is runnable
+	Fair   bool   // quiet phase: round-robin, no draws
+	rr     int
+	curProc *Proc
+}
+
+// StartScheduler equips the world with a scheduler (and a kernel if k is true).
+func (w *World) StartScheduler() {
+	w.sched = &sched{w: w, back: make(chan struct{}), chans: map[uintptr]*chanState{}, KeepBias: 6}
+}
+
+func (w *World) Now() time.Duration {
+	if w.sched == nil {
+		return 0
+	}
+	return w.sched.now
+}
+
+func (w *World) Steps() int        { return w.sched.Steps }
+func (w *World) Interleaving() uint64 { return w.sched.ilHash }
+func (w *World) SetFair(f bool)    { w.sched.Fair = f }
+func (w *World) SetKeepBias(b int) { w.sched.KeepBias = b }
+
+// Active reports whether transformed code is currently running under the scheduler.
+func Active() bool { return W != nil && W.sched != nil && W.sched.cur != nil }
+
+func curTask() *Task {
+	if W == nil || W.sched == nil {
+		return nil
+	}
+	return W.sched.cur
+}
+
+// CurrentProc returns the simulated process of the running task (nil outside).
+func CurrentProc() *Proc {
+	if t := curTask(); t != nil {
+		return t.Proc
+	}
+	return nil
+}
+
+// Spawn creates a task in process p. It becomes runnable immediately.
+func (w *World) Spawn(p *Proc, name string, fn func()) *Task {
+	s := w.sched
+	t := &Task{ID: len(s.tasks) + 1, Name: name, Proc: p, gate: make(chan struct{})}
+	s.tasks = append(s.tasks, t)
+	if p != nil {
+		p.tasks = append(p.tasks, t)
+	}
+	go func() {
+		<-t.gate
+		defer func() {
+			if r := recover(); r != nil {
+				t.Panic = r
+				buf := make([]byte, 4096)
+				t.PanicStack = string(buf[:runtime.Stack(buf, false)])
+			}
+			dying := t.dying
+			t.state = tsDone
+			if !dying && t.Panic != nil && t.Proc != nil && W == w {
+				// an unrecovered panic kills the whole process with status 2, as in Go
+				w.Logf("PANIC in task %s (pid %d): %v", t.Name, t.Proc.Pid, t.Panic)
+				w.K.exitProc(t.Proc, 2, false)
+			}
+			s.back <- struct{}{}
+		}()
+		if t.dying {
+			return
+		}
+		fn()
+	}()
+	return t
+}
+
+// Go is what a `go` statement is rewritten to.
+func Go(site string, fn func()) {
+	w := W
+	if w == nil || w.sched == nil || w.sched.cur == nil {
+		go fn()
+		return
+	}
+	cur := w.sched.cur
+	t := w.Spawn(cur.Proc, site, fn)
+	w.Logf("go %s -> task %d (pid %d)", site, t.ID, pidOf(cur.Proc))
+	Yield("go:" + site)
+}
+
+func pidOf(p *Proc) int {
+	if p == nil {
+		return 0
+	}
+	return p.Pid
+}
+
+// park hands control back to the driver and waits to be scheduled again.
+func (s *sched) park(t *Task) {
+	s.back <- struct{}{}
+	<-t.gate
+	if t.dying {
+		runtime.Goexit()
+	}
+}
+
+// Yield is a pre-emption point.
+func Yield(site string) {
+	w := W
+	if w == nil || w.sched == nil {
+		return
+	}
+	t := w.sched.cur
+	if t == nil || t.dying {
+		return
+	}
+	t.site = site
+	w.sched.park(t)
+}
+
+// Block parks the current task until ready() holds. ready is evaluated by the driver.
+func Block(site string, ready func() bool) {
+	w := W
+	t := w.sched.cur
+	if t.dying {
+		runtime.Goexit()
+	}
+	for !ready() {
+		t.state = tsBlocked
+		t.ready = ready
+		t.site = site
+		w.sched.park(t)
+		t.state = tsRunnable
+		t.ready = nil
+	}
+}
+
+// Freeze parks the current task for ever (its process exited).
+func (s *sched) freezeCurrent() {
+	t := s.cur
+	t.state = tsFrozen
+	s.park(t) // only returns through Goexit at teardown
+	runtime.Goexit()
+}
+
+// After schedules fn at now+d on the simulated clock (fn runs on the driver).
+func (w *World) After(d time.Duration, fn func()) *timer {
+	s := w.sched
+	if d < 0 {
+		d = 0
+	}
+	s.tseq++
+	tm := &timer{at: s.now + d, seq: s.tseq, fn: fn}
+	heap.Push(&s.timers, tm)
+	return tm
+}
+
+// Sleep blocks the current task for d of simulated time.
+func Sleep(d time.Duration) {
+	w := W
+	if w == nil || w.sched == nil || w.sched.cur == nil {
+		time.Sleep(d)
+		return
+	}
+	done := false
+	w.After(d, func() { done = true })
+	Block("sleep", func() bool { return done })
+}
+
+type RunResult struct {
+	Reason string // quiescent | deadline | steps | invariant
+	Err    error
+}
+
+// Run drives the world until simulated time `until`, maxSteps scheduler steps, quiescence
+// (nothing runnable and no timer), or an invariant violation.
+func (w *World) Run(until time.Duration, maxSteps int, invariant func() error) RunResult {
+	s := w.sched
+	for {
+		if s.Steps >= maxSteps {
+			return RunResult{Reason: "steps"}
+		}
+		for s.timers.Len() > 0 && s.timers[0].at <= s.now {
+			tm := heap.Pop(&s.timers).(*timer)
+			if !tm.dead {
+				tm.fn()
+			}
+		}
+		var runnable []*Task
+		for _, t := range s.tasks {
+			switch t.state {
+			case tsRunnable:
+				runnable = append(runnable, t)
+			case tsBlocked:
+				if t.ready != nil && t.ready() {
+					runnable = append(runnable, t)
+				}
+			}
+		}
+		if len(runnable) == 0 {
+			if s.timers.Len() == 0 {
+				return RunResult{Reason: "quiescent"}
+			}
+			next := s.timers[0].at
+			if next > until {
+				s.now = until
+				return RunResult{Reason: "deadline"}
+			}
+			s.now = next
+			continue
+		}
+		if s.now >= until {
+			return RunResult{Reason: "deadline"}
+		}
+		sort.Slice(runnable, func(i, j int) bool { return runnable[i].ID < runnable[j].ID })
+		var pick *Task
+		if s.Fair {
+			s.rr++
+			pick = runnable[s.rr%len(runnable)]
+		} else {
+			curIdx := -1
+			for i, t := range runnable {
+				if t == s.cur {
+					curIdx = i
+				}
+			}
+			if curIdx >= 0 && len(runnable) > 1 {
+				// zero draw = keep running the current task
+				if w.T.Draw(8) < s.KeepBias {
+					pick = runnable[curIdx]
+				}
+			}
+			if pick == nil {
+				pick = runnable[w.T.Draw(len(runnable))]
+			}
+		}
+		if w.SchedLog {
+			ids := make([]int, len(runnable))
+			for i, t := range runnable {
+				ids[i] = t.ID
+			}
+			w.Logf("step %d pick=%d(%s) runnable=%v", s.Steps, pick.ID, pick.site, ids)
+		}
+		if pick != s.cur {
+			s.Switches++
+			s.ilHash = (s.ilHash ^ uint64(pick.ID)*0x9e3779b97f4a7c15 ^ hashStr(pick.site)) * 0x100000001b3
+		}
+		s.switchTo(pick)
+		s.Steps++
+		if invariant != nil {
+			if err := invariant(); err != nil {
+				return RunResult{Reason: "invariant", Err: err}
+			}
+		}
+	}
+}
+
+func hashStr(s string) uint64 {
+	var h uint64 = 14695981039346656037
+	for i := 0; i < len(s); i++ {
+		h = (h ^ uint64(s[i])) * 1099511628211
+	}
+	return h
+}
+
+func (s *sched) switchTo(t *Task) {
+	s.cur = t
+	if t.Proc != s.curProc {
+		s.curProc = t.Proc
+		if argsSwap != nil {
+			if t.Proc != nil {
+				argsSwap(t.Proc.Args)
+			} else {
+				argsSwap(realArgs)
+			}
+		}
+	}
+	t.state = tsRunnable
+	t.gate <- struct{}{}
+	<-s.back
+	s.cur = nil
+}
+
+// teardown unwinds every parked goroutine, one at a time, so that no goroutine outlives
+// its world. Deferred functions of Zn code run here; every shim is inert for a dying task.
+func (s *sched) teardown() {
+	for _, t := range s.tasks {
+		if t.state == tsDone {
+			continue
+		}
+		t.dying = true
+		s.cur = t
+		t.gate <- struct{}{}
+		<-s.back
+		s.cur = nil
+	}
+	if argsSwap != nil {
+		argsSwap(realArgs)
+	}
+}
+
+// Dying reports whether the current task is being unwound at teardown (shims must be inert).
+func Dying() bool {
+	t := curTask()
+	return t != nil && t.dying
+}
+
+func (w *World) TaskDump() []string {
+	var out []string
+	for _, t := range w.sched.tasks {
+		st := []string{"runnable", "blocked", "done", "frozen"}[t.state]
+		out = append(out, fmt.Sprintf("task %d %s pid=%d %s at %s", t.ID, t.Name, pidOf(t.Proc), st, t.site))
+	}
+	return out
+}
